@@ -35,7 +35,7 @@ ANCHORS = [
     ('pjrpc/client/integrations/pytest.py', 'PjRpcMocker._cleanup_matches'),
 ]
 FLOORS = {'*': {'op:add': 500, 'op:replace': 50, 'op:remove-method': 50, 'op:remove-endpoint': 30, 'op:reset': 30,
-                'op:call': 500, 'op:batch': 200, 'op:batch-of-one': 50, 'op:replace-negative-index': 20, 'op:restart': 50, 'backend:runs': 12, 'once-exhausted-inside-batch': 10, 'passthrough': 50, 'refused': 50,
+                'op:call': 500, 'op:batch': 200, 'op:batch-of-one': 50, 'op:replace-negative-index': 20, 'op:restart': 50, 'backend:runs': 12, 'backend:passthrough': 4, 'once-exhausted-inside-batch': 10, 'passthrough': 50, 'refused': 50,
                 'unpatched-method': 50, 'client:sync': 200, 'client:async': 200, 'round-robin>=3': 30, 'callback': 50,
                 'id:falsy': 30}}
 
@@ -53,7 +53,9 @@ class MAsync(clientside.AsyncClient):
 
 def patch_value(kind, tag):
     if kind == 'result':
-        return dict(result={'tag': tag})
+        # every third result patch is configured with the (rarely used) id= argument: the reply to a request that HAS an id
+        # still carries the request's id
+        return dict(result={'tag': tag}, **({'id': 9000 + tag} if tag % 3 == 0 else {}))
     if kind == 'error':
         return dict(error=pjrpc.exc.JsonRpcError(code=4000 + tag, message=f'err{tag}', data=[tag]))
     return dict(callback=lambda *a, **k: {'cb': tag, 'a': list(a), 'k': k})
@@ -252,6 +254,62 @@ URLS = ['http://localhost/api/v1', 'https://rpc.example.com:443/api/v1', 'http:/
         'https://h/%7Euser/x', 'http://h/a/../b']
 
 
+def run_backend_passthrough(ctx, backend):
+    """passthrough on, a library backend, an endpoint without patches: the call reaches the backend's real transport (here:
+    a connection attempt to a port nobody listens on), whatever that then does"""
+    import importlib
+    url = 'http://127.0.0.1:9/rpc'
+    is_async = backend in ('httpx-async', 'aiohttp')
+    try:
+        if backend == 'requests':
+            import requests
+            mod, target, reached = importlib.import_module('pjrpc.client.backend.requests'), 'pjrpc.client.backend.requests.Client._request', requests.exceptions.RequestException
+            make = lambda: mod.Client(url)
+        elif backend == 'httpx':
+            import httpx
+            mod, target, reached = importlib.import_module('pjrpc.client.backend.httpx'), 'pjrpc.client.backend.httpx.Client._request', httpx.HTTPError
+            make = lambda: mod.Client(url)
+        elif backend == 'httpx-async':
+            import httpx
+            mod, target, reached = importlib.import_module('pjrpc.client.backend.httpx'), 'pjrpc.client.backend.httpx.AsyncClient._request', httpx.HTTPError
+            make = lambda: mod.AsyncClient(url)
+        else:
+            import aiohttp
+            mod, target, reached = importlib.import_module('pjrpc.client.backend.aiohttp'), 'pjrpc.client.backend.aiohttp.Client._request', aiohttp.ClientError
+            make = lambda: mod.Client(url)
+    except Exception as e:
+        ctx.skip(f'backend-not-importable:{type(e).__name__}')
+        return
+    cls = ('backend-passthrough', backend)
+    mocker = PjRpcMocker(target, passthrough=True)
+    mocker.start()
+    try:
+        mocker.add('http://elsewhere/rpc', 'ma', result='patched')       # some OTHER endpoint is patched
+
+        async def adrive():
+            client = make()
+            try:
+                return await client.call('ma', 1)
+            finally:
+                close = getattr(client, 'close', None)
+                if close is not None:
+                    res = close()
+                    if hasattr(res, '__await__'):
+                        await res
+        st, out = clientside.outcome_of(adrive if is_async else (lambda: make().call('ma', 1)), is_async)
+        ctx.hit('backend:passthrough')
+        if st == 'exc' and isinstance(out, (reached, OSError)):
+            ctx.ok(f'backend-passthrough:{backend}', cls, sample={'backend': backend, 'reached_the_real_transport_which_raised': type(out).__name__})
+        else:
+            ctx.violation('unpatched-endpoint-not-passed-through:library-backend' + (f':raises-{type(out).__name__}' if st == 'exc' else ''),
+                          'passthrough', cls, backend=backend, outcome=[st, out])
+    finally:
+        try:
+            mocker.stop()
+        except Exception:
+            pass
+
+
 def run_backend(ctx, backend, url, passthrough_probe):
     """the library's own client backends under the mocker: the endpoint a patch is added for is the URL string the client was
     built with, however the backend spells it internally"""
@@ -414,6 +472,7 @@ def gen(ctx):
             ops.append(rng.choice(calls))
         yield from emit(ops)
     for backend in ('requests', 'httpx', 'httpx-async', 'aiohttp'):
+        yield 'backend_passthrough', dict(backend=backend)
         for url in URLS:
             yield 'backend', dict(backend=backend, url=url, passthrough_probe=False)
     # round-robin over >= 3 patches, once patches consumed inside batches, then further documents
@@ -430,4 +489,4 @@ def gen(ctx):
         yield from emit(once + [['call', ep, [['mb', [1], 1]]], ['remove', ep, 'ma'], ['call', ep, [['ma', [3], 3]]]])
 
 
-KINDS = {'history': run_history, 'backend': run_backend}
+KINDS = {'history': run_history, 'backend': run_backend, 'backend_passthrough': run_backend_passthrough}
